@@ -35,10 +35,14 @@ def resident_desc(draw, inc_ok):
             'chain': step and draw(st.booleans())}
 
 
+# state values: 0 (falsy, and different from the sub-schema defaults 7 / 9) often
+VAL = st.one_of(st.just(0), st.integers(0, 50))
+
+
 @st.composite
 def histories(draw, viewers=False, residents=False, inc_ok=False,
               max_ticks=6, reject_ok=False, step_op_ok=True,
-              tuple_delete=False, none_ok=False):
+              tuple_delete=False, none_ok=False, anchor_ok=False):
     counter = [0]
     graveyard = []      # keys that existed in an earlier tick and are gone now
 
@@ -54,9 +58,9 @@ def histories(draw, viewers=False, residents=False, inc_ok=False,
     def state():
         s = {}
         if draw(st.booleans()):
-            s['x'] = draw(st.integers(0, 50))
+            s['x'] = draw(VAL)
         if draw(st.integers(0, 2)) == 0:
-            s['y'] = draw(st.integers(0, 50))
+            s['y'] = draw(VAL)
         elif none_ok and draw(st.integers(0, 4)) == 0:
             s['y'] = None       # an explicitly unset variable must stay unset
         return s
@@ -67,8 +71,8 @@ def histories(draw, viewers=False, residents=False, inc_ok=False,
         kids = {}
         for _ in range(draw(st.integers(0, 2))):
             k = fresh()
-            kids[k] = {'x': draw(st.integers(0, 50)),
-                       'y': draw(st.integers(0, 50))}
+            kids[k] = {'x': draw(VAL),
+                       'y': draw(VAL)}
             if residents and draw(st.booleans()):
                 res0[port + '/' + k] = draw(resident_desc(inc_ok))
         init[port] = kids
@@ -220,6 +224,14 @@ def histories(draw, viewers=False, residents=False, inc_ok=False,
                 if op.get('resident')]:
             if res['ts'] not in (1.0, 2.0):
                 res['ts'] = 1.0
+    if anchor_ok and draw(st.booleans()):
+        # residents also read a variable two levels above their compartment:
+        # root/anchor from G1/k and G2/k, G1/perm/anchor from G1/perm/sub/k
+        spec['anchor'] = True
+        for res in list(res0.values()) + [
+                op['resident'] for b in ticks for op in b
+                if op.get('resident')]:
+            res['anchor'] = True
     if viewers:
         for i in range(draw(st.integers(1, 3))):
             spec['viewers'].append({
@@ -289,6 +301,12 @@ def build(spec, ctx, parallel_names=()):
             processes[v['name']] = kit.WireProcess(params)
         topology[v['name']] = {'view': ref.PORT_PATH[v['port_on']]}
     state = {'G1': {'perm': {'sub': {}}}, 'G2': {}}
+    if spec.get('anchor'):
+        processes['ANC'] = kit.WireProcess({
+            'name': 'ANC', 'run_id': 0, 'update': {}, 'time_step': 1.0,
+            'schema': {'a1': {'v': {'_default': 111, '_emit': True}},
+                       'a2': {'v': {'_default': 222, '_emit': True}}}})
+        topology['ANC'] = {'a1': ('anchor',), 'a2': ('G1', 'perm', 'anchor')}
     for port in PORTS:
         path = ref.PORT_PATH[port]
         for k, vals in spec['init'][port].items():
@@ -569,6 +587,8 @@ def run_views(spec, res):
                              'store.py:build_topology_views')
                     return
                 res.label('resident_view')
+                if 'anchor' in vals:
+                    res.label('resident_view.anchor_at_depth_%d' % len(path))
         res.nontrivial = bool(op_times) and any(
             len(set(ts)) >= 2 for ts in calls.values())
         if not calls:
